@@ -62,11 +62,11 @@ def check_delta_arrays(ctx, modules, prefix):
     for fi, name, stores, aware in sites:
         key = (fi.module.name, fi.qualname)
         if key in CONFIRMED:
-            ctx.ob(fi.where, f"cumulative-sum construction of `{name}` from point stores at row starts: confirmed instance ({CONFIRMED[key]})", True, "", key=f"{prefix}|delta-array|{key[0]}|{key[1]}")
+            ctx.ob(fi.where, f"cumulative-sum construction of `{name}` from point stores at row starts: confirmed instance ({CONFIRMED[key]})", True, "", key=f"{prefix}|delta-array|{key[0]}|{key[1]}", definite=True)
             continue
         ctx.ob(fi.where, f"`{name}` is filled by point stores at row starts and then accumulated: two rows with the same start (an EMPTY row and its neighbour) get one store "
                "instead of two, so every later row is shifted; the construction must remove or handle empty rows", aware, "; ".join(u(s)[:80] for s in stores),
-               key=f"{prefix}|delta-array|{key[0]}|{key[1]}")
+               key=f"{prefix}|delta-array|{key[0]}|{key[1]}", definite=True)
     ctx.count("functions scanned for the delta-array idiom", scanned)
     return len(sites)
 
@@ -110,6 +110,6 @@ def check_uniformity_shortcuts(ctx, modules, prefix):
         z_from_w = zdef is not None and {n.id for n in ast.walk(zdef) if isinstance(n, ast.Name)} & set(ws) and not any(
             isinstance(n, ast.Name) and n.id not in ws and n.id in env for n in ast.walk(zdef))
         ctx.ob(fi.where, f"the all-records-alike shortcut tests `{', '.join(ws)}` and then uses `{z}[0]` for every record: `{z}` must be determined by the tested array "
-               f"(equal `{ws[0]}` does not imply equal `{z}`)", bool(z_from_w), u(t.test)[:100], key=f"{prefix}|uniformity-shortcut|{fi.module.name}|{fi.qualname}|{z}")
+               f"(equal `{ws[0]}` does not imply equal `{z}`)", bool(z_from_w), u(t.test)[:100], key=f"{prefix}|uniformity-shortcut|{fi.module.name}|{fi.qualname}|{z}", definite=True)
     ctx.count("functions scanned for all-alike shortcuts", scanned)
     return len(sites)
